@@ -36,6 +36,18 @@ from insights.cleaner import Cleaner, DEFAULT_OBFUSCATIONS
 from insights.cleaner.filters import AllowFilter
 
 NO_OBF = sorted(DEFAULT_OBFUSCATIONS)
+
+
+class derived_ds1(datasource):
+    """a component type derived from `datasource` (like insights' host_datasource style types)"""
+    pass
+
+
+class derived_ds2(derived_ds1):
+    pass
+
+
+DTYPES = [datasource, derived_ds1, derived_ds2]
 FINDING_SPLIT = "host-content-resplit"
 FINDING_STREAM = "archive-stream-unfiltered"
 # characters at which str.splitlines() breaks a line but grep (and the file) does not
@@ -89,8 +101,10 @@ def gen_spec(rng):
             r = rng.random()
             if r < 0.15:
                 continue
-            if r < 0.55:
+            if r < 0.4:
                 cls[str(p)] = ["file"]
+            elif r < 0.55:
+                cls[str(p)] = ["fn", rng.choice([0, 1, 1, 2])]      # a function of a type DERIVED from datasource
             elif r < 0.7:
                 cls[str(p)] = ["cmd"]
             elif r < 0.85 and anon:
@@ -114,7 +128,7 @@ def gen_spec(rng):
         # derived datasources; biased to sit on top of a non-filterable point (where the gate of
         # get_filters decides whether their filters count)
         dep = rng.choice(closed) if closed and rng.random() < 0.4 else rng.choice(ds)
-        sp["derived"].append({"dep": dep, "filterable": rng.choice([None, True, True, False])})
+        sp["derived"].append({"dep": dep, "filterable": rng.choice([None, True, True, False]), "dtype": rng.choice([0, 0, 1, 2])})
         ds.append(n)
         n += 1
     sp["nds"] = n       # ids below this are datasources
@@ -200,7 +214,7 @@ def gen_spec_chain(rng):
     uncollectable whatever B has."""
     k = rng.choice([2, 2, 3])
     sp = {"enabled": True, "points": [{"filterable": rng.random() < 0.9, "raw": False} for _ in range(k)],
-          "anon": [], "impls": [{"0": ["file"]}], "extra": [], "derived": [], "parsers": [], "combiners": [],
+          "anon": [], "impls": [{"0": rng.choice([["file"], ["fn", 1], ["fn", 2]])}], "extra": [], "derived": [], "parsers": [], "combiners": [],
           "plain": 1, "scenario": "chain", "chain": []}
     n = k + 1                      # points, then A's file implementation (id k)
     roles = {"points": list(range(k)), "impls": [k], "parsers": [], "computed": []}
@@ -209,7 +223,7 @@ def gen_spec_chain(rng):
         roles["parsers"].append(n)
         n += 1
         if p + 1 < k:
-            sp["chain"].append(["dsfrom", n - 1])
+            sp["chain"].append(["dsfrom", n - 1, rng.choice([0, 1, 2])])
             d = n
             n += 1
             sp["chain"].append(["bind", p + 1, d])
@@ -272,6 +286,11 @@ class World(object):
                     obj = simple_file("/nonexistent/%s/i%d_%d" % (tag, j, p))
                 elif how[0] == "cmd":
                     obj = simple_command("/bin/true %s %d %d" % (tag, j, p))
+                elif how[0] == "fn":
+                    def obj(broker):
+                        return None
+                    obj.__name__ = "fn%d_%d%s" % (j, p, tag)
+                    DTYPES[how[1]](HostContext)(obj)
                 elif how[0] == "first_of":
                     obj = first_of([self.comps[a] for a in how[1]])
                 else:
@@ -300,7 +319,7 @@ class World(object):
             def f(broker):
                 return None
             f.__name__ = "d%d%s" % (i, tag)
-            datasource(self.comps[dv["dep"]], **kw)(f)
+            DTYPES[dv.get("dtype", 0)](self.comps[dv["dep"]], **kw)(f)
             c = reg(f, True, False, bool(dv["filterable"]))
             edge(dv["dep"], c)
         for i, pa in enumerate(sp["parsers"]):
@@ -329,7 +348,7 @@ class World(object):
                 def fn(broker):
                     return None
                 fn.__name__ = "cd%d%s" % (i, tag)
-                datasource(self.comps[st[1]])(fn)
+                DTYPES[st[2] if len(st) > 2 else 0](self.comps[st[1]])(fn)
                 edge(st[1], reg(fn, True, False, False))
             else:       # ["bind", point, ds]: the computed datasource becomes the implementation of the point
                 _, p_, d_ = st
@@ -1708,6 +1727,168 @@ def run_nested_case(rig, c):
     return impl, lines, fails, tags
 
 
+# =========================================================================== (g) filters.loads before / after import
+
+CHILD = r"""
+import sys, json, os
+sys.dont_write_bytecode = True
+repo, scratch, mode, modname = sys.argv[1:5]
+spec = json.load(open(os.path.join(scratch, modname + ".json")))
+sys.path.insert(0, scratch); sys.path.insert(0, repo)
+from insights.core import dr, filters
+from insights.core.exceptions import NoFilterException
+def imp():
+    return __import__(modname)
+text = spec.get("yaml")
+if mode == "before":
+    assert modname not in sys.modules
+    filters.loads(text)
+    m = imp()
+elif mode == "after":
+    m = imp()
+    filters.loads(text)
+elif mode == "loadfile":
+    assert modname not in sys.modules
+    with open(os.path.join(scratch, modname + ".yaml")) as f:
+        filters.load(f)
+    m = imp()
+else:
+    m = imp()
+    for name, pat, mx in spec["regs"]:
+        cls, attr = name.split(".")[-2:]
+        filters.add_filter(getattr(getattr(m, cls), attr), pat, mx)
+from insights.core.context import HostContext, HostArchiveContext
+out = {"get": {}, "content": {}, "host": {}}
+for cls in ("Specs", "Impl", "HostImpl"):
+    for attr in ("p", "q"):
+        c = getattr(getattr(m, cls), attr)
+        out["get"][cls + "." + attr] = sorted(filters.get_filters(c, True).items())
+ab = dr.Broker(); ab[HostArchiveContext] = HostArchiveContext(root=scratch)
+hb = dr.Broker(); hb[HostContext] = HostContext(root=scratch)
+for attr in ("p", "q"):
+    out["content"][attr] = list(getattr(m.Impl, attr)(ab).content)
+    try:
+        pr = getattr(m.HostImpl, attr)(hb)
+        try:
+            out["host"][attr] = list(pr.content)
+        except Exception as e:
+            out["host"][attr] = "error:" + type(e).__name__
+    except NoFilterException:
+        out["host"][attr] = "nofilter"
+if mode == "dump":
+    out["dump"] = filters.dumps()
+print("@@" + json.dumps(out))
+"""
+
+MODULE_SRC = """
+from insights.core.spec_factory import SpecSet, RegistryPoint, simple_file
+from insights.core.context import HostContext, HostArchiveContext
+
+
+class Specs(SpecSet):
+    p = RegistryPoint(filterable=True)
+    q = RegistryPoint(filterable=True)
+
+
+class Impl(Specs):
+    p = simple_file("%(f)s", context=HostArchiveContext)
+    q = simple_file("%(g)s", context=HostArchiveContext)
+
+
+class HostImpl(Specs):
+    p = simple_file("%(f)s", context=HostContext)
+    q = simple_file("%(g)s", context=HostContext)
+"""
+
+
+def gen_loads_case(rng):
+    toks = ["a", "b", "x", "-x", "foo", " "]
+
+    def lines():
+        return ["".join(rng.choice(toks) for _ in range(rng.choice([1, 2, 3]))) for _ in range(rng.randint(3, 7))]
+    regs = []
+    for name in ["Specs.p", "Specs.p", "Impl.p"] + (["Specs.q"] if rng.random() < 0.5 else []):
+        regs.append([name, rng.choice(toks) + rng.choice(["", "", "x"]), rng.choice([1, 2, 10000])])
+    return {"kind": "loads", "regs": regs, "p": lines(), "q": lines()}
+
+
+def run_loads_case(rig, c):
+    """the same registrations made (0) by add_filter after import, (1) by filters.loads BEFORE the spec's module is
+    imported, (2) by loads after import, (3) by filters.load(stream) before import, (4) dumps -> loads round trip;
+    each in a fresh child interpreter; returns observations per mode and failures"""
+    import subprocess
+    from harness.common import REPO
+    mod = "c07mod_" + fresh("m")
+    for fn, ls in (("f", c["p"]), ("g", c["q"])):
+        with open(os.path.join(rig.dir, mod + "_" + fn + ".txt"), "w") as f:
+            f.write("".join(l + "\n" for l in ls))
+    with open(os.path.join(rig.dir, mod + ".py"), "w") as f:
+        f.write(MODULE_SRC % {"f": mod + "_f.txt", "g": mod + "_g.txt"})
+    merged = {}
+    for name, pat, mx in c["regs"]:
+        d = merged.setdefault(mod + "." + name, {})
+        d[pat] = max(d.get(pat, mx), mx)
+    yaml_text = json.dumps(merged)          # JSON is YAML
+    regs = [[mod + "." + n, p_, m_] for n, p_, m_ in c["regs"]]
+
+    def child(mode, text):
+        with open(os.path.join(rig.dir, mod + ".json"), "w") as f:
+            json.dump({"yaml": text, "regs": regs}, f)
+        with open(os.path.join(rig.dir, mod + ".yaml"), "w") as f:
+            f.write(text or "")
+        r = subprocess.run(["/venv/bin/python", "-c", CHILD, REPO, rig.dir, mode, mod], stdout=subprocess.PIPE,
+                           stderr=subprocess.PIPE, timeout=120)
+        for l in r.stdout.decode("utf-8", "replace").split("\n"):
+            if l.startswith("@@"):
+                return json.loads(l[2:])
+        return {"error": r.stderr.decode("utf-8", "replace")[-600:]}
+    obs = {"add_filter": child("dump", None)}
+    dump = obs["add_filter"].pop("dump", None)
+    obs["loads-before-import"] = child("before", yaml_text)
+    obs["loads-after-import"] = child("after", yaml_text)
+    obs["load(stream)-before-import"] = child("loadfile", yaml_text)
+    if dump is not None:
+        obs["dumps->loads-before-import"] = child("before", dump)
+    fails = []
+    ref = obs["add_filter"]
+    if "error" in ref:
+        fails.append("reference child failed: %s" % ref["error"])
+        return obs, fails
+    # the reference itself against the property: union for the implementation, content filtered, no filters -> refused
+    want = {}
+    for name, pat, mx in c["regs"]:
+        want.setdefault(name, {})
+        want[name][pat] = max(want[name].get(pat, mx), mx)
+    for attr in ("p", "q"):
+        spec_f = want.get("Specs." + attr, {})
+        impl_f = dict(want.get("Impl." + attr, {}))
+        for k, v in spec_f.items():
+            impl_f[k] = v if k not in impl_f else impl_f[k]
+        if sorted(k for k, _ in ref["get"]["Specs." + attr]) != sorted(spec_f) or sorted(k for k, _ in ref["get"]["Impl." + attr]) != sorted(impl_f):
+            fails.append("add_filter reference: filters in force for %s differ from the registrations" % attr)
+        allow = [(k, v) for k, v in ref["get"]["Impl." + attr]]
+        if allow:
+            bad = content_oracle("archive-load(%s)" % attr, c[attr], allow, ref["content"][attr])
+            if bad:
+                fails.append(bad)
+        if not spec_f and ref["host"][attr] != "nofilter":
+            fails.append("spec %s has no filters but was collected on a host" % attr)
+    for mode, o in obs.items():
+        if mode == "add_filter":
+            continue
+        if "error" in o:
+            fails.append("%s: child failed: %s" % (mode, o["error"][-300:]))
+        elif o != ref:
+            diff = [k + "/" + kk for k in ref for kk in ref[k] if o.get(k, {}).get(kk) != ref[k][kk]]
+            fails.append("%s: filters loaded from a file are not in force as if registered with add_filter after import; differs at %s: "
+                         "%r vs %r" % (mode, diff[:3], [o.get(d.split("/")[0], {}).get(d.split("/")[1]) for d in diff[:2]],
+                                       [ref[d.split("/")[0]][d.split("/")[1]] for d in diff[:2]]))
+    for f in os.listdir(rig.dir):
+        if f.startswith(mod):
+            os.remove(os.path.join(rig.dir, f))
+    return obs, fails
+
+
 # =========================================================================== corpus / witnesses
 
 def load_corpus():
@@ -1732,6 +1913,7 @@ def run(chk):
     n_branch = 300 if quick else 6000
     n_hydrate = 150 if quick else 3000
     n_nested = 200 if quick else 4000
+    n_loads = 2 if quick else 40
     chk.rule = ("(a) histories of 4-12 add_filter/get_filters/provider-construction operations over a fresh generated "
                 "component graph (1-3 registry points with random filterable/raw flags, 1-2 implementation classes using "
                 "simple_file/simple_command/first_of/shared datasource objects, derived datasources, parsers, combiners, "
@@ -1744,6 +1926,11 @@ def run(chk):
                 "same datasource through TextFileProvider under HostArchiveContext (simple_file and glob_file / multi-output), "
                 "look-ups, further registrations, clean_content / apply_filters / filter_content on the shared dict; "
                 "get_filters of all three components compared with the model after every step; non-trivial = at least two loads; "
+                "(g) loads: per case 5 fresh child interpreters with a generated SpecSet module on sys.path: the same registrations made by "
+                "add_filter after import (reference), filters.loads before the module is imported, loads after import, filters.load(stream) "
+                "before import, and a dumps -> loads round trip; get_filters of specs and implementations, archive content and host "
+                "construction compared with the reference; a fraction of implementations, derived and computed datasources in the registry "
+                "histories are declared with a component type DERIVED from datasource (one and two levels); "
                 "(f) nested-host: a registry point (85% filterable) implemented by a direct simple_command, first_of([command, file]) in "
                 "both orders, nested first_of, head(foreach_execute) and first_of([command_with_args]); no filters / filters on the spec / "
                 "the bound implementation / a parser; evaluated by dr.run under HostContext; the commands leave a marker file when they "
@@ -1772,13 +1959,13 @@ def run(chk):
     open(os.path.join(scratch, "f"), "w").write("x\n")
     rig = ContentRig()
     try:
-        _run(chk, rng, quick, n_hist, n_content, n_direct, n_bad, n_load, n_branch, n_hydrate, n_nested, scratch, rig)
+        _run(chk, rng, quick, n_hist, n_content, n_direct, n_bad, n_load, n_branch, n_hydrate, n_nested, n_loads, scratch, rig)
     finally:
         rig.close()
         shutil.rmtree(scratch, ignore_errors=True)
 
 
-def _run(chk, rng, quick, n_hist, n_content, n_direct, n_bad, n_load, n_branch, n_hydrate, n_nested, scratch, rig):
+def _run(chk, rng, quick, n_hist, n_content, n_direct, n_bad, n_load, n_branch, n_hydrate, n_nested, n_loads, scratch, rig):
     corpus = load_corpus()
 
     # ---- corpus: regression cases and the known-finding witness
@@ -1850,6 +2037,20 @@ def _run(chk, rng, quick, n_hist, n_content, n_direct, n_bad, n_load, n_branch, 
     chk.compare("hydrate", cases, impl_all, out)
     chk.sample({"hydrate-case": [dict(shape=x["shape"], files=len(x["files"]), old=x["old"], now=x["now"]) for x in hydrate_cases[-1]["specs"]]})
 
+    # ---- (g) filters loaded from a file before / after the spec's module is imported (child interpreters)
+    for i in range(n_loads):
+        c = gen_loads_case(rng)
+        obs, fails = run_loads_case(rig, c)
+        chk.case(("loads", json.dumps(c, sort_keys=True)), True)
+        for mode in obs:
+            chk.count("loads-mode:" + mode)
+        agree = sum(1 for mode, o in obs.items() if mode != "add_filter" and o == obs["add_filter"])
+        chk.stream("loads-vs-add_filter", len(obs) - 1, len(obs) - 1 - agree)
+        for f in fails:
+            chk.failure(f, c)
+        if i == 0:
+            chk.sample({"loads-case": c["regs"], "observed(add_filter)": obs["add_filter"].get("get")})
+
     # ---- (f) nested command datasources under a HostContext, evaluated by the real engine
     for _ in range(n_nested):
         nested_cases.append(gen_nested_case(rng))
@@ -1883,6 +2084,9 @@ def _run(chk, rng, quick, n_hist, n_content, n_direct, n_bad, n_load, n_branch, 
             chk.count(t)
         chk.count("world:n=%d" % min(sp["n"], 12))
         chk.count("world:scenario=%s" % sp.get("scenario", "general"))
+        nd = sum(1 for cl in sp["impls"] for how in cl.values() if how[0] == "fn" and how[1] > 0) + \
+            sum(1 for dv in sp["derived"] if dv.get("dtype", 0) > 0) + sum(1 for st in sp.get("chain", []) if st[0] == "dsfrom" and len(st) > 2 and st[2] > 0)
+        chk.count("world:derived-type-datasources=%d" % min(nd, 3))
         if not sp["enabled"]:
             chk.count("world:disabled")
     chk.sample({"history": hist_cases[len(corpus)][1][:4], "graph": hist_cases[len(corpus)][0]})
@@ -2014,6 +2218,17 @@ def replay(data):
                 bad = True
         finally:
             shutil.rmtree(scratch, ignore_errors=True)
+    elif c["kind"] == "loads":
+        rig = ContentRig()
+        try:
+            obs, fails = run_loads_case(rig, c)
+            for mode, o in obs.items():
+                print("  %-30s %s" % (mode, json.dumps(o)[:400]))
+            for f in fails:
+                print("ORACLE:", f)
+                bad = True
+        finally:
+            rig.close()
     elif c["kind"] == "nested":
         rig = ContentRig()
         try:
